@@ -311,7 +311,7 @@ def _call_oc(mon, case, ref, hyp):
     import pydrobert.torch.functional as F
     import pydrobert.torch.modules as M
 
-    ins, dl, sub = case["costs"]
+    ins, dl, sub = G.costs_as_given(case)
     kw = dict(eos=case["eos"], include_eos=case["include_eos"], batch_first=case["batch_first"],
               ins_cost=ins, del_cost=dl, sub_cost=sub, padding=case["padding"],
               exclude_last=case["exclude_last"], warn=False)
@@ -438,7 +438,7 @@ def _call_loss(mon, case, logits, ref, hyp):
     import pydrobert.torch.functional as F
     import pydrobert.torch.modules as M
 
-    ins, dl, sub = case["costs"]
+    ins, dl, sub = G.costs_as_given(case)
     kw = dict(eos=case["eos"], include_eos=case["include_eos"], batch_first=case["batch_first"],
               ins_cost=ins, del_cost=dl, sub_cost=sub, reduction=case["reduction"],
               ignore_index=case["ignore_index"])
